@@ -388,6 +388,9 @@ def truth(cx, v):
             return v.truthy
         if v.attrs.get("maybe_none") is not None:
             return z3.Not(v.attrs["maybe_none"])
+        if v.kind in ("tuple", "dictview", "str") and v.ident is not None:
+            # emptiness of an opaque sequence is a function of its content identity
+            return z3.Function("nonempty_seq", z3.IntSort(), z3.BoolSort())(v.ident)
         raise Unsupported(f"truthiness of opaque {v.kind}")
     if isinstance(v, SObj):
         if "__len__" in v.fields:
